@@ -41,6 +41,7 @@ From V Require Import Proto.StopImmediatelyDefs.
 From V Require Import Proto.IoCancelDefs.
 From V Require Import Calc.Calc2Defs.
 From V Require Import Proto.UringOpDefs.
+From V Require Import Proto.AtomicListDefs.
 Extraction Blacklist List String Int.
 Cd "../ocaml".
 Extraction "model.ml"
@@ -252,5 +253,10 @@ Extraction "model.ml"
   UringOp.init
   UringOp.parked_ok
   UringOp.spinning
+  SpawnFault.run
+  AtomicList.step
+  AtomicList.init
+  AtomicList.quiescent
+  AtomicList.chain_of
   (*END*).
 Cd "../coq".
